@@ -49,6 +49,15 @@ class Gen:
     def __init__(self, rng, stats=None):
         self.r = rng
         self.stats = stats if stats is not None else {}
+        self.allow_transfer = True     # ArrayBuffer.prototype.transfer exists only with boa's `experimental` feature
+        self.allow_f16 = True
+        self.fresh()
+
+    def kind(self, pool=None):
+        pool = pool or KINDS
+        if not self.allow_f16:
+            pool = [k for k in pool if k != "f16"]
+        return self.r.choice(pool)
 
     def st(self, key):
         self.stats[key] = self.stats.get(key, 0) + 1
@@ -271,7 +280,7 @@ class Gen:
         r = self.r
         d = r.randrange(NV)
         b = self.pick_buf()
-        k = r.choice(KINDS)
+        k = self.kind()
         sz = SIZE[k]
         bd = self.bufs.get(b)
         ln = bd["len"] if bd else 8
@@ -301,7 +310,7 @@ class Gen:
     def op_mktalen(self):
         r = self.r
         d, db = r.randrange(NV), r.randrange(NB)
-        k = r.choice(KINDS)
+        k = self.kind()
         if r.random() < 0.1:
             self.st("mktalen:odd")
             return "mktalen %d %d %s %s" % (d, db, k, r.choice(["u", fv(-1.0), fv(2.5), fv(float("nan")), fv(2.0 ** 53)]))
@@ -315,11 +324,11 @@ class Gen:
         r = self.r
         d, db = r.randrange(NV), r.randrange(NB)
         src = self.pick_view(dv=False)
-        sk = self.views.get(src, {}).get("kind", "u8")
+        sk = self.views.get(src, {}).get("kind") or "u8"
         if r.random() < 0.85:
-            k = r.choice([x for x in KINDS if (x in BIG) == (sk in BIG)])
+            k = self.kind([x for x in KINDS if (x in BIG) == (sk in BIG)])
         else:
-            k = r.choice(KINDS)
+            k = self.kind()
         n = self.vlen(src)
         if (k in BIG) == (sk in BIG):
             self.bufs[db] = dict(len=n * SIZE[k], max=None, shared=False, det=False)
@@ -384,13 +393,13 @@ class Gen:
 
     def op_dvget(self):
         v = self.pick_view(dv=True)
-        k = self.r.choice(DVK)
+        k = self.kind(DVK)
         self.st("dvget")
         return "dvget %d %s %s %d" % (v, k, self.dv_off(v, k), self.r.randrange(2))
 
     def op_dvset(self):
         v = self.pick_view(dv=True)
-        k = self.r.choice(DVK)
+        k = self.kind(DVK)
         self.st("dvset")
         return "dvset %d %s %s %s %d %s" % (v, k, self.dv_off(v, k), self.value_for(k), self.r.randrange(2), self.mid(v))
 
@@ -441,7 +450,7 @@ class Gen:
         n = self.vlen(v)
         vd = self.views.get(v)
         s, e = self.index(n), self.index(n)
-        if vd:
+        if vd and not vd["dv"]:
             self.views[d] = dict(kind=vd["kind"], buf=vd["buf"], off=vd["off"], alen=(None if (vd["alen"] is None and e == "u") else max(0, n // 2)), dv=False)
         self.st("subarray")
         return "subarray %d %d %s %s" % (d, v, s, e)
@@ -453,7 +462,7 @@ class Gen:
         n = self.vlen(v)
         vd = self.views.get(v)
         m = self.mid(v)
-        if vd:
+        if vd and not vd["dv"]:
             self.bufs[db] = dict(len=n * SIZE[vd["kind"]], max=None, shared=False, det=False)
             self.views[d] = dict(kind=vd["kind"], buf=db, off=0, alen=n, dv=False)
         self.st("slice")
@@ -471,7 +480,7 @@ class Gen:
         vd = self.views.get(v)
         k = (vd or {}).get("kind") or "u8"
         n = self.vlen(v)
-        if vd:
+        if vd and not vd["dv"]:
             self.bufs[db] = dict(len=n * SIZE[k], max=None, shared=False, det=False)
             self.views[d] = dict(kind=k, buf=db, off=0, alen=n, dv=False)
         self.st("with")
@@ -491,10 +500,105 @@ class Gen:
             ops.append(self.op_newbuf())
         for _ in range(r.randrange(2, 6)):
             ops.append(self.op_mkta() if r.random() < 0.7 else self.op_mkdv())
-        names = [n for n, _ in self.WEIGHTS]
-        ws = [w for _, w in self.WEIGHTS]
+        names = [n for n, _ in self.WEIGHTS if self.allow_transfer or n != "op_transfer"]
+        ws = [w for n, w in self.WEIGHTS if self.allow_transfer or n != "op_transfer"]
         while len(ops) < nops:
             ops.append(getattr(self, r.choices(names, ws)[0])())
+        return ops
+
+    def forced_mid(self, v, must=True):
+        """a resize / detach of view v's buffer that certainly runs (from inside an argument's valueOf)"""
+        r = self.r
+        d = self.views.get(v)
+        bd = self.bufs.get(d["buf"]) if d else None
+        if bd is None:
+            return "-"
+        b = d["buf"]
+        sz = SIZE.get(d.get("kind") or "u8", 1)
+        if not bd["shared"] and r.random() < 0.1:
+            self.st("rmid:detach")
+            bd["det"] = True
+            return "d%d" % b
+        if bd["max"] is None:
+            return "-"
+        ln, off = bd["len"], d["off"]
+        if bd["shared"]:
+            n = r.choice([ln, min(bd["max"], ln + sz), bd["max"]])
+            self.st("rmid:grow-shared")
+        else:
+            n = r.choice([max(0, ln - sz), max(0, ln - 1), ln // 2, off + sz, off + 2 * sz, off, max(0, off - 1), 0, bd["max"], min(bd["max"], ln + sz)])
+            self.st("rmid:shrink" if n < ln else "rmid:grow-or-same")
+        n = max(0, min(n, bd["max"]))
+        bd["len"] = n
+        return "r%d:%x" % (b, n)
+
+    def resize_history(self, nops):
+        """bounds re-validation: one resizable buffer, length-tracking and fixed views of it, and bulk / element operations that
+        each carry a shrink, grow or detach of that buffer inside one of their arguments"""
+        self.fresh()
+        r = self.r
+        L = r.choice([8, 12, 16, 24, 32])
+        M = L + r.choice([0, 8, 16])
+        shared = r.random() < 0.12
+        ops = ["newbuf 0 %d %s %s" % (int(shared), fv(float(L)), fv(float(M)))]
+        self.bufs[0] = dict(len=L, max=M, shared=shared, det=False)
+        k = self.kind()
+        sz = SIZE[k]
+        off = sz * r.randrange(0, 2)
+        ops.append("mkta 0 u8 0 u u")
+        self.views[0] = dict(kind="u8", buf=0, off=0, alen=None, dv=False)
+        ops.append("mkta 1 %s 0 %s u" % (k, fv(float(off))))
+        self.views[1] = dict(kind=k, buf=0, off=off, alen=None, dv=False)
+        k2 = self.kind()
+        n2 = r.randrange(1, max(2, L // SIZE[k2] + 1))
+        ops.append("mkta 2 %s 0 u %s" % (k2, fv(float(n2))))
+        self.views[2] = dict(kind=k2, buf=0, off=0, alen=n2, dv=False)
+        doff = r.randrange(0, 4)
+        ops.append("mkdv 3 0 %s u" % fv(float(doff)))
+        self.views[3] = dict(kind=None, buf=0, off=doff, alen=None, dv=True)
+
+        def paint():
+            n = self.bufs[0]["len"]
+            if n > 0 and not self.bufs[0]["det"]:
+                ops.append("setarr 0 %s %s" % (fv(0.0), " ".join(fv(float((7 * i + 1) % 251)) for i in range(n))))
+        paint()
+        while len(ops) < nops:
+            v = r.choice([0, 1, 1, 2])
+            kd = self.views[v]["kind"]
+            n = self.vlen(v)
+            c = r.random()
+            if c < 0.3:
+                to = r.randrange(0, max(1, n // 2 + 1))
+                frm = r.randrange(0, max(1, n // 2 + 1))
+                end = r.choice([n, n, max(0, n - 1), -1, n + 3])
+                ops.append("copywithin %d %s %s %s %s" % (v, fv(float(to)), fv(float(frm)), fv(float(end)), self.forced_mid(v)))
+                self.st("resize:copywithin")
+            elif c < 0.5:
+                ops.append("fill %d %s %s %s %s" % (v, self.value_for(kd), fv(float(r.randrange(0, max(1, n)))), fv(float(r.choice([n, n + 2, max(0, n - 1)]))), self.forced_mid(v)))
+                self.st("resize:fill")
+            elif c < 0.68:
+                ops.append("slice 4 1 %d %s %s %s" % (v, fv(float(r.randrange(0, max(1, n // 2 + 1)))), fv(float(r.choice([n, max(0, n - 1), n + 1]))), self.forced_mid(v)))
+                self.views[4] = dict(kind=kd, buf=1, off=0, alen=n, dv=False)
+                self.bufs[1] = dict(len=n * SIZE[kd], max=None, shared=False, det=False)
+                self.st("resize:slice")
+            elif c < 0.82:
+                ops.append("set %d %s %s %s" % (v, fv(float(r.choice([0, max(0, n - 1), n // 2]))), self.value_for(kd), self.forced_mid(v)))
+                self.st("resize:set")
+            elif c < 0.92:
+                kk = self.kind(DVK)
+                room = self.dv_room(3)
+                o = max(0, room - SIZE[kk]) if r.random() < 0.6 else r.randrange(0, max(1, room))
+                ops.append("dvset 3 %s %s %s %d %s" % (kk, fv(float(o)), self.value_for(kk), r.randrange(2), self.forced_mid(3)))
+                self.st("resize:dvset")
+            else:
+                ops.append("with 5 2 %d %s %s" % (v, fv(float(r.randrange(0, max(1, n)))), self.value_for(kd)))
+                self.st("resize:with")
+            # look at the result through the other views, then sometimes restore the length and repaint
+            ops.append("get %d %s" % (r.choice([0, 1, 2]), self.key(self.vlen(1))))
+            if r.random() < 0.5 and not self.bufs[0]["det"] and not shared:
+                ops.append("resize 0 %s" % fv(float(L)))
+                self.bufs[0]["len"] = L
+                paint()
         return ops
 
     def conv_history(self, nops):
@@ -503,7 +607,7 @@ class Gen:
         r = self.r
         ops = ["newbuf 0 0 %s -" % fv(16.0)]
         self.bufs[0] = dict(len=16, max=None, shared=False, det=False)
-        kinds = r.sample(KINDS, 8)
+        kinds = r.sample([k for k in KINDS if self.allow_f16 or k != "f16"], 8)
         for i, k in enumerate(kinds):
             ops.append("mkta %d %s 0 %s u" % (i, k, fv(0.0)))
             self.views[i] = dict(kind=k, buf=0, off=0, alen=16 // SIZE[k], dv=False)
@@ -519,7 +623,7 @@ class Gen:
                 ops.append("get %d %s" % (v, fv(float(i))))
                 self.st("conv:set-get")
             elif c < 0.75:
-                k = r.choice(DVK)
+                k = self.kind(DVK)
                 off = r.randrange(0, 16 - SIZE[k] + 1)
                 le = r.randrange(2)
                 ops.append("dvset 9 %s %s %s %d -" % (k, fv(float(off)), self.value_for(k), le))
@@ -527,7 +631,7 @@ class Gen:
                 self.st("conv:dvset-dvget")
             elif c < 0.9:
                 src = r.randrange(8)
-                k = r.choice([x for x in KINDS if (x in BIG) == (kinds[src] in BIG)])
+                k = self.kind([x for x in KINDS if (x in BIG) == (kinds[src] in BIG)])
                 ops.append("mktafrom 8 1 %s %d" % (k, src))
                 self.views[8] = dict(kind=k, buf=1, off=0, alen=16 // SIZE[kinds[src]], dv=False)
                 ops.append("get 8 %s" % fv(float(r.randrange(0, 16 // SIZE[kinds[src]]))))
@@ -539,21 +643,24 @@ class Gen:
         return ops
 
 
-def malformed_history(rng, nops, stats):
+def malformed_history(rng, nops, stats, g=None):
     """edge stream: ops on empty slots, wrong view families, undefined everywhere, extreme indices"""
-    g = Gen(rng, stats)
+    if g is None:
+        g = Gen(rng, stats)
     g.fresh()
+    KINDS_ = [k for k in KINDS if g.allow_f16 or k != "f16"]
+    DVK_ = [k for k in DVK if g.allow_f16 or k != "f16"]
     ops = []
     for _ in range(nops):
         c = rng.random()
         if c < 0.3:
-            ops.append(getattr(g, rng.choice([n for n, _ in Gen.WEIGHTS]))())
+            ops.append(getattr(g, rng.choice([n for n, _ in Gen.WEIGHTS if g.allow_transfer or n != "op_transfer"]))())
         elif c < 0.5:
             ops.append("get %d %s" % (rng.randrange(NV), g.index(4, False)))
         elif c < 0.6:
-            ops.append("dvget %d %s %s %d" % (rng.randrange(NV), rng.choice(DVK), g.index(4), rng.randrange(2)))
+            ops.append("dvget %d %s %s %d" % (rng.randrange(NV), rng.choice(DVK_), g.index(4), rng.randrange(2)))
         elif c < 0.7:
-            ops.append("mkta %d %s %d %s %s" % (rng.randrange(NV), rng.choice(KINDS), rng.randrange(NB), g.index(8), g.index(8)))
+            ops.append("mkta %d %s %d %s %s" % (rng.randrange(NV), rng.choice(KINDS_), rng.randrange(NB), g.index(8), g.index(8)))
         elif c < 0.8:
             ops.append("newbuf %d %d %s %s" % (rng.randrange(NB), rng.randrange(2), g.index(16), rng.choice(["-", "u", g.index(16)])))
         elif c < 0.9:
